@@ -30,28 +30,29 @@ type retRec struct {
 }
 
 type Frame struct {
-	e        *Enc
-	fn       *ssa.Function
-	id       int
-	prefix   string
-	vals     map[ssa.Value]Val
-	reach    map[*ssa.BasicBlock]string
-	out      map[*ssa.BasicBlock]*State
-	edgeCond map[[2]int]string
-	defers   []*deferRec
-	rets     []*retRec
-	depth    int
-	parent   *Frame
-	entry    *State // state at entry (for old())
-	alloc0   string
-	contract *Contract
-	loops    []*LoopInfo
-	top      bool
-	noPanic  bool
-	npProps  []string
-	loopHead map[*ssa.BasicBlock]*loopCtx
-	freeVars map[*ssa.FreeVar]Val
-	stack    []string
+	e            *Enc
+	fn           *ssa.Function
+	id           int
+	prefix       string
+	vals         map[ssa.Value]Val
+	reach        map[*ssa.BasicBlock]string
+	out          map[*ssa.BasicBlock]*State
+	edgeCond     map[[2]int]string
+	defers       []*deferRec
+	rets         []*retRec
+	depth        int
+	parent       *Frame
+	entry        *State // state at entry (for old())
+	alloc0       string
+	contract     *Contract
+	loops        []*LoopInfo
+	top          bool
+	noPanic      bool
+	npProps      []string
+	loopHead     map[*ssa.BasicBlock]*loopCtx
+	freeVars     map[*ssa.FreeVar]Val
+	curLoopFrame bool
+	stack        []string
 	// names of values for spec lookup
 	paramVal map[string]Val
 }
@@ -511,6 +512,7 @@ func (f *Frame) enterLoop(li *LoopInfo, b *ssa.BasicBlock, reach string, st *Sta
 		e.assert(e.wfVal(nv.T, phi.Type(), na))
 		lc.phiVals[phi] = nv
 	}
+	f.curLoopFrame = spec.Frame
 	w := f.loopWrites(li)
 	if w["*"] {
 		e.note(fmt.Sprintf("loop %d of %s calls an unknown function value: all heaps havocked", li.Ordinal, fname))
@@ -551,6 +553,7 @@ func (f *Frame) assumeLoopInvariants(lc *loopCtx, reach string, st *State) {
 		v := f.specTerm(d.Expr, &specEnv{f: f, st: st, old: f.entry, block: lc.li.Header, atLoopHead: true})
 		lc.measure = f.e.define(f.prefix+"_measure", sInt, v.T)
 	}
+	f.useLemmas(reach, st)
 }
 
 func (f *Frame) checkBackEdge(from, header *ssa.BasicBlock, taken string, st *State) {
